@@ -7,14 +7,6 @@ CONSTANTS MaxLeaves, MaxArity, Pats, UnaryUpTo     \* unary nodes and chains in 
 VARIABLES inp, res, phase
 vars == <<inp, res, phase>>
 
-RECURSIVE Mirror(_)
-Mirror(t) == Node(t.len, t.idx, Reverse(TLCEval([k \in DOMAIN t.kids |-> Mirror(t.kids[k])])))
-\* a tree that differs in one branch length (the first leaf's)
-RECURSIVE Stretch(_, _)
-Stretch(t, i) ==
-  IF IsLeaf(t) THEN (IF t.idx = i THEN [t EXCEPT !.len = RAdd(t.len, R(1))] ELSE t)
-  ELSE Node(t.len, -1, TLCEval([k \in DOMAIN t.kids |-> Stretch(t.kids[k], i)]))
-
 \* inputs of the equality calls that S2 needs next to the tree itself
 Results(t) ==
   [n      |-> Len(LeafList(t)),
